@@ -78,8 +78,8 @@ def build_dir():
     # keep at most 3 cached trees
     root = os.path.join(OUT, "build")
     ds = sorted((os.path.join(root, x) for x in os.listdir(root)), key=os.path.getmtime)
-    for old in ds[:-3]:
-        if old != d:
+    for old in ds[:-4]:
+        if old != d and time.time() - os.path.getmtime(old) > 3 * 3600:
             shutil.rmtree(old, ignore_errors=True)
     os.utime(d)
     return d
@@ -182,6 +182,7 @@ def build_harness(src, libs, extra=None, name=None):
 
 # ----------------------------------------------------------------- coq
 def coq_makefile():
+    sh([sys.executable, os.path.join(VERIF, "lib", "mkcoqproject.py")])
     mk = os.path.join(COQ, "Makefile")
     cp = os.path.join(COQ, "_CoqProject")
     if not os.path.exists(mk) or os.path.getmtime(mk) < os.path.getmtime(cp):
